@@ -152,3 +152,364 @@ Proof.
   - rewrite IH. simpl. now rewrite <- !app_assoc.
   - rewrite IH. rewrite app_length, Nat.add_1_r. simpl. now rewrite <- !app_assoc.
 Qed.
+
+(* ------------------------------------------------------------- rank ------------------ *)
+Lemma rank_S {A} (m : list (option A)) i :
+  rank m (S i) = rank m i + match nth_error m i with Some None => 1 | _ => 0 end.
+Proof.
+  unfold rank. revert i. induction m as [|x m IH]; intros [|i]; simpl; auto.
+  - destruct x; simpl; auto.
+  - specialize (IH i). destruct x; simpl in *; lia.
+Qed.
+
+Lemma rank_mono {A} (m : list (option A)) i j : i <= j -> rank m i <= rank m j.
+Proof. induction 1; auto. rewrite rank_S. lia. Qed.
+
+Lemma rank_strict {A} (m : list (option A)) i j :
+  i < j -> nth_error m i = Some None -> rank m i < rank m j.
+Proof.
+  intros L E. apply Nat.lt_le_trans with (rank m (S i)).
+  - rewrite rank_S, E. lia.
+  - apply rank_mono. lia.
+Qed.
+
+Lemma rank_total {A} (m : list (option A)) :
+  rank m (length m) = length (filter is_none m).
+Proof. unfold rank. now rewrite firstn_all. Qed.
+
+Lemma rank_lt_total {A} (m : list (option A)) i :
+  nth_error m i = Some None -> rank m i < length (filter is_none m).
+Proof.
+  intros E. rewrite <- rank_total. apply rank_strict; auto.
+  apply nth_error_Some. congruence.
+Qed.
+
+(* every k below the number of unspecialised parameters is the rank of one of them *)
+Lemma rank_onto {A} (m : list (option A)) k :
+  k < length (filter is_none m) -> exists i, nth_error m i = Some None /\ rank m i = k.
+Proof.
+  revert k. induction m as [|x m IH]; simpl; intros k L; [lia|].
+  destruct x as [a|]; simpl in L.
+  - destruct (IH k L) as [i [E R]]. exists (S i). split; auto.
+  - destruct k as [|k].
+    + exists 0. split; auto.
+    + destruct (IH k) as [i [E R]]; [lia|]. exists (S i). split; auto.
+      unfold rank in *. simpl. now rewrite R.
+Qed.
+
+(* ------------------------------------------------------------- composition ----------- *)
+Definition arg_closed (o : option tm) : bool :=
+  match o with Some x => scoped 0 x | None => true end.
+
+Lemma sp_to_bound p : set_preserve (to_bound p) = to_bound p.
+Proof. destruct p; reflexivity. Qed.
+
+Lemma insf_to_bound : forall F x X p,
+  insf (F ++ x :: X) (to_bound (with_idx (length F) p)) = x.
+Proof.
+  intros. destruct p; unfold insf; simpl;
+    rewrite map_app, nth_error_app2 by (rewrite map_length; lia);
+    rewrite map_length, Nat.sub_diag; reflexivity.
+Qed.
+
+Lemma insf_closed l t : scoped 0 t = true -> insf l t = t.
+Proof. apply inst_closed. Qed.
+
+Lemma closed_ctypes_cons p ps : closed_ctypes (p :: ps) = true ->
+  (match p with PCon _ t _ => scoped 0 t = true | _ => True end) /\ closed_ctypes ps = true.
+Proof. unfold closed_ctypes. simpl. intros H. apply andb_true_iff in H. destruct p; tauto. Qed.
+
+Lemma scoped_to_bound k p :
+  (match p with PCon _ t _ => scoped 0 t = true | _ => True end) ->
+  scoped (S k) (to_bound (with_idx k p)) = true.
+Proof.
+  destruct p; simpl; intros H.
+  - apply Nat.ltb_lt. lia.
+  - apply andb_true_iff. split. apply Nat.ltb_lt; lia. eapply scoped_mono; [|exact H]. lia.
+Qed.
+
+Lemma Forall_scoped_mono n m l : n <= m ->
+  Forall (fun t => scoped n t = true) l -> Forall (fun t => scoped m t = true) l.
+Proof. intros L. apply Forall_impl. intros. eapply scoped_mono; eauto. Qed.
+
+Lemma map_insf_app F x l : Forall (fun t => scoped (length F) t = true) l ->
+  map (insf (F ++ x)) l = map (insf F) l.
+Proof. intros H. apply map_ext_Forall. eapply Forall_impl; [|exact H]. intros. now apply insf_app. Qed.
+
+Lemma ip_spec_compose : forall ps a1 a2 F1 F2 k2,
+  closed_ctypes ps = true -> forallb arg_closed a1 = true ->
+  length a1 = length ps -> length a2 = length (filter is_none a1) ->
+  Forall (fun t => scoped (length F2) t = true) F1 ->
+  fst (ip_spec ps (compose_args a1 a2) (map (insf F2) F1) k2)
+    = map (insf (F2 ++ fst (ip_spec (snd (ip_spec ps a1 F1 (length F2))) a2 F2 k2)))
+          (fst (ip_spec ps a1 F1 (length F2)))
+  /\ snd (ip_spec ps (compose_args a1 a2) (map (insf F2) F1) k2)
+     = snd (ip_spec (snd (ip_spec ps a1 F1 (length F2))) a2 F2 k2).
+Proof.
+  induction ps as [|p ps IH]; intros a1 a2 F1 F2 k2 CT CA L1 L2 SC.
+  - destruct a1; simpl in *; try discriminate. destruct a2; simpl in *; try discriminate. auto.
+  - destruct a1 as [|[x|] a1]; simpl in L1; try discriminate.
+    + (* first step specialises p with the closed x *)
+      simpl in CA. apply andb_true_iff in CA. destruct CA as [Cx CA].
+      apply closed_ctypes_cons in CT. destruct CT as [_ CT].
+      assert (Cs : scoped 0 (set_preserve x) = true) by now apply set_preserve_scoped.
+      simpl.
+      specialize (IH a1 a2 (F1 ++ [set_preserve x]) F2 k2 CT CA ltac:(lia) L2).
+      rewrite map_app in IH. simpl in IH. rewrite (insf_closed F2 _ Cs) in IH.
+      match type of IH with ?A -> _ => assert (HA : A) end.
+      { apply Forall_app. split; auto. constructor; auto. eapply scoped_mono; [|exact Cs]. lia. }
+      specialize (IH HA). destruct IH as [IH1 IH2].
+      split; simpl; [|exact IH2].
+      rewrite IH1. f_equal. symmetry. now apply insf_closed.
+    + (* first step leaves p generic *)
+      simpl in CA. simpl in L2.
+      destruct a2 as [|y a2]; simpl in L2; try discriminate.
+      pose proof (closed_ctypes_cons _ _ CT) as [Cp CT'].
+      assert (SB := scoped_to_bound (length F2) p Cp).
+      destruct y as [z|].
+      * (* ... and the second step specialises it with z *)
+        simpl. rewrite !sp_to_bound.
+        specialize (IH a1 a2 (F1 ++ [to_bound (with_idx (length F2) p)]) (F2 ++ [set_preserve z]) k2
+                       CT' CA ltac:(lia) ltac:(lia)).
+        rewrite app_length in IH. simpl in IH. rewrite Nat.add_1_r in IH.
+        rewrite map_app in IH. simpl in IH.
+        rewrite (insf_to_bound F2 (set_preserve z) [] p) in IH.
+        rewrite (map_insf_app F2 [set_preserve z] F1 SC) in IH.
+        match type of IH with ?A -> _ => assert (HA : A) end.
+        { apply Forall_app. split. eapply Forall_scoped_mono; [|exact SC]; lia. constructor; auto. }
+        specialize (IH HA). destruct IH as [IH1 IH2].
+        split; simpl; [|exact IH2].
+        rewrite IH1. rewrite <- !app_assoc. simpl.
+        f_equal. symmetry. apply insf_to_bound.
+      * (* ... and so does the second *)
+        simpl. rewrite !sp_to_bound.
+        assert (EB : to_bound (with_idx k2 (inst_bounds (map Some F1) (with_idx (length F2) p)))
+                     = to_bound (with_idx k2 p)).
+        { destruct p; simpl; auto. simpl in Cp. f_equal. now apply inst_closed. }
+        assert (EP : inst_bounds (map Some F2) (with_idx k2 (inst_bounds (map Some F1) (with_idx (length F2) p)))
+                     = inst_bounds (map Some (map (insf F2) F1)) (with_idx k2 p)).
+        { destruct p; simpl; auto. simpl in Cp. f_equal.
+          rewrite (inst_closed (map Some F1) _ Cp), (inst_closed (map Some F2) _ Cp), (inst_closed _ _ Cp). reflexivity. }
+        rewrite EB, EP.
+        specialize (IH a1 a2 (F1 ++ [to_bound (with_idx (length F2) p)]) (F2 ++ [to_bound (with_idx k2 p)]) (S k2)
+                       CT' CA ltac:(lia) ltac:(lia)).
+        rewrite app_length in IH. simpl in IH. rewrite Nat.add_1_r in IH.
+        rewrite map_app in IH. simpl in IH.
+        rewrite (insf_to_bound F2 (to_bound (with_idx k2 p)) [] p) in IH.
+        rewrite (map_insf_app F2 [to_bound (with_idx k2 p)] F1 SC) in IH.
+        match type of IH with ?A -> _ => assert (HA : A) end.
+        { apply Forall_app. split. eapply Forall_scoped_mono; [|exact SC]; lia. constructor; auto. }
+        specialize (IH HA). destruct IH as [IH1 IH2].
+        split; simpl.
+        -- rewrite IH1. rewrite <- !app_assoc. simpl.
+           f_equal. symmetry. apply insf_to_bound.
+        -- now rewrite IH2.
+Qed.
+
+Lemma ip_spec_fst_length : forall ps a F k, length a = length ps ->
+  length (fst (ip_spec ps a F k)) = length ps.
+Proof.
+  induction ps as [|p ps IH]; intros [|[x|] a] F k L; simpl in *; try discriminate; auto.
+Qed.
+
+Lemma map_insf_compose l1 l2 ts : forallb (scoped (length l1)) ts = true ->
+  map (insf l2) (map (insf l1) ts) = map (insf (map (insf l2) l1)) ts.
+Proof.
+  intros H. rewrite map_map. apply map_ext_sc with (b := scoped (length l1)); auto.
+  apply Forall_forall. intros. now apply insf_compose.
+Qed.
+
+Lemma ip_compose_strict : forall f a1 a2,
+  wf_fty f = true -> closed_ctypes (f_params f) = true -> forallb arg_closed a1 = true ->
+  length a1 = length (f_params f) -> length a2 = length (filter is_none a1) ->
+  instantiate_partial (instantiate_partial f a1) a2 = instantiate_partial f (compose_args a1 a2).
+Proof.
+  intros f a1 a2 WF CT CA L1 L2. unfold instantiate_partial.
+  rewrite (ip_loop_spec (f_params f) a1 [] []). simpl.
+  rewrite (ip_loop_spec _ a2 [] []). simpl.
+  rewrite (ip_loop_spec (f_params f) (compose_args a1 a2) [] []). simpl.
+  destruct (ip_spec_compose (f_params f) a1 a2 [] [] 0 CT CA L1 L2 (Forall_nil _)) as [E1 E2].
+  simpl in E1, E2. rewrite E1, E2.
+  unfold wf_fty in WF. repeat (apply andb_true_iff in WF; destruct WF as [WF ?]).
+  assert (LL := ip_spec_fst_length (f_params f) a1 [] 0 L1).
+  f_equal.
+  - apply map_insf_compose. now rewrite LL.
+  - apply insf_compose. now rewrite LL.
+  - apply map_insf_compose. now rewrite LL.
+Qed.
+
+(* full instantiation *)
+Lemma ip_spec_full : forall ps args F k, length args = length ps ->
+  ip_spec ps (map Some args) F k = (map set_preserve args, []).
+Proof.
+  induction ps as [|p ps IH]; intros [|x args] F k L; simpl in *; try discriminate; auto.
+  rewrite IH by lia. reflexivity.
+Qed.
+
+Lemma instantiate_subst : forall d f args,
+  wf_fty f = true -> length args = length (f_params f) ->
+  let r := fun i => nth i (map set_preserve args) d in
+  instantiate f args = mkF (map (subst r) (f_ins f)) (f_fl f) (subst r (f_out f)) []
+                           (map (subst r) (f_cargs f)).
+Proof.
+  intros d f args WF L r. unfold instantiate, instantiate_partial.
+  rewrite ip_loop_spec. simpl. rewrite ip_spec_full by auto. simpl.
+  unfold wf_fty in WF. repeat (apply andb_true_iff in WF; destruct WF as [WF ?]).
+  assert (LL : length (map set_preserve args) = length (f_params f)) by now rewrite map_length.
+  f_equal.
+  - apply map_ext_sc with (b := scoped (length (f_params f))); auto.
+    apply Forall_forall. intros. apply insf_subst. now rewrite LL.
+  - apply insf_subst. now rewrite LL.
+  - apply map_ext_sc with (b := scoped (length (f_params f))); auto.
+    apply Forall_forall. intros. apply insf_subst. now rewrite LL.
+Qed.
+
+(* remaining parameters *)
+Lemma ip_spec_remaining : forall ps a F k,
+  snd (ip_spec ps a F k) = remaining_spec ps a F k.
+Proof.
+  induction ps as [|p ps IH]; intros [|[x|] a] F k; simpl; auto.
+  destruct p; simpl; rewrite IH; reflexivity.
+Qed.
+
+(* ------------------------------------------------------------- HUGR commutation ------ *)
+Lemma map_sel {A B} (f : A -> B) keep l fl : map f (sel keep l fl) = sel keep (map f l) fl.
+Proof.
+  revert fl. induction l as [|x l IH]; intros [|b fl]; simpl; auto.
+  destruct (keep b); simpl; now rewrite IH.
+Qed.
+
+Lemma map_ext_mono {B} (f g : tm -> B) m l :
+  Forall (fun x => mono_ok m x = true -> f x = g x) l -> forallb (mono_ok m) l = true ->
+  map f l = map g l.
+Proof. apply map_ext_sc. Qed.
+
+Lemma to_hugr_mono_hspec : forall m t, mono_ok m t = true ->
+  to_hugr_m m t = hspec (mono_harg m) (fun i => rank m i) (to_hugr0 t).
+Proof.
+  intros m. unfold to_hugr_m, to_hugr0.
+  induction t using tm_ind'; simpl; intros OK; auto.
+  - unfold tv_m, tv0, mono_harg. simpl.
+    destruct (nth_error m i) as [[a|]|]; try discriminate; auto.
+    apply negb_true_iff in OK. now rewrite OK.
+  - destruct k; reflexivity.
+  - f_equal. rewrite map_map. apply map_ext_mono with (m := m); auto.
+  - f_equal. rewrite map_map. apply map_ext_mono with (m := m); auto.
+  - apply andb_true_iff in OK. destruct OK as [O1 O2].
+    assert (E : map (to_hugr (tv_m m) (cv_m m)) ins
+                = map (hspec (mono_harg m) (fun i => rank m i)) (map (to_hugr tv0 cv0) ins)).
+    { rewrite map_map. apply map_ext_mono with (m := m); auto. }
+    rewrite E, !map_app, !map_sel. f_equal. f_equal.
+    specialize (IHt O2).
+    destruct t as [ | | [|] | ts [|] | | | | ]; simpl in *; try congruence.
+  - destruct (is_nat t); reflexivity.
+  - unfold cv_m, cv0, mono_harg. destruct (is_nat t) eqn:N; simpl; auto.
+    destruct (nth_error m i) as [[a|]|]; try discriminate; auto.
+    destruct a; try discriminate. simpl. now rewrite OK.
+Qed.
+
+(* ------------------------------------------------------------- partially_monomorphize_args *)
+Lemma set_nth_length {A} (l : list A) i x : length (set_nth l i x) = length l.
+Proof. revert i; induction l; destruct i; simpl; auto. Qed.
+
+Lemma nth_error_set_nth {A} (l : list A) i x j :
+  nth_error (set_nth l i x) j = if (i =? j) && (i <? length l) then Some x else nth_error l j.
+Proof.
+  revert i j; induction l as [|a l IH]; intros i j.
+  - simpl. rewrite andb_false_r. reflexivity.
+  - destruct i as [|i], j as [|j]; simpl; auto. rewrite IH. reflexivity.
+Qed.
+
+(* marking the variables of a type *)
+Lemma mark_vars_length args vs mono : length (mark_vars args vs mono) = length mono.
+Proof.
+  unfold mark_vars. revert mono. induction vs; simpl; intros; auto.
+  rewrite IHvs. apply set_nth_length.
+Qed.
+
+Lemma nth_error_mark_vars args vs : forall mono j, j < length mono ->
+  nth_error (mark_vars args vs mono) j
+  = if existsb (Nat.eqb j) vs then Some (nth_error args j) else nth_error mono j.
+Proof.
+  unfold mark_vars. induction vs as [|v vs IH]; simpl; intros mono j L; auto.
+  rewrite IH by (now rewrite set_nth_length).
+  destruct (existsb (Nat.eqb j) vs) eqn:E.
+  - now rewrite orb_true_r.
+  - rewrite orb_false_r. rewrite nth_error_set_nth.
+    destruct (j =? v) eqn:J.
+    + apply Nat.eqb_eq in J. subst. rewrite Nat.eqb_refl. simpl.
+      apply Nat.ltb_lt in L. now rewrite L.
+    + rewrite Nat.eqb_sym, J. reflexivity.
+Qed.
+
+Definition clause (args : list tm) (i : nat) (p : param) : bool :=
+  match p with
+  | PCon j oty _ => (negb (is_nat oty) && existsb (Nat.eqb i) (bound_vars oty))
+                    || (negb (is_nat (insf args oty)) && (i =? j))
+  | _ => false end.
+
+Lemma pma_step_length args mono pa : length (pma_step args mono pa) = length mono.
+Proof.
+  unfold pma_step. destruct (fst pa); auto.
+  destruct (is_nat t); destruct (is_nat (insf args t));
+    rewrite ?set_nth_length, ?mark_vars_length; auto.
+Qed.
+
+(* one step: position j is marked by p, or keeps its state *)
+Lemma pma_step_nth args mono p a j : j < length mono ->
+  (forall i t c, p = PCon i t c -> nth_error args i = Some a) ->
+  nth_error (pma_step args mono (p, a)) j
+  = if clause args j p then Some (nth_error args j) else nth_error mono j.
+Proof.
+  intros L HA. unfold pma_step, clause. simpl. destruct p as [|i t c]; auto.
+  specialize (HA i t c eq_refl).
+  destruct (is_nat t) eqn:N1; simpl.
+  - destruct (is_nat (insf args t)) eqn:N2; simpl; auto.
+    rewrite nth_error_set_nth. rewrite (Nat.eqb_sym j i).
+    destruct (i =? j) eqn:E; simpl; auto.
+    apply Nat.eqb_eq in E. subst. apply Nat.ltb_lt in L. rewrite L. now rewrite HA.
+  - destruct (is_nat (insf args t)) eqn:N2; simpl.
+    + rewrite orb_false_r. now apply nth_error_mark_vars.
+    + rewrite nth_error_set_nth, mark_vars_length. rewrite (Nat.eqb_sym j i).
+      rewrite nth_error_mark_vars by auto.
+      destruct (i =? j) eqn:E; simpl.
+      * apply Nat.eqb_eq in E. subst. apply Nat.ltb_lt in L. rewrite L.
+        rewrite orb_true_r. now rewrite HA.
+      * now rewrite orb_false_r.
+Qed.
+
+Lemma pma_fold_nth args : forall pas mono j, j < length mono ->
+  Forall (fun pa => forall i t c, fst pa = PCon i t c -> nth_error args i = Some (snd pa)) pas ->
+  nth_error (fold_left (pma_step args) pas mono) j
+  = if existsb (fun pa => clause args j (fst pa)) pas then Some (nth_error args j)
+    else nth_error mono j.
+Proof.
+  induction pas as [|[p a] pas IH]; simpl; intros mono j L HF; auto.
+  inversion HF as [|? ? H1 H2]; subst. simpl in H1.
+  rewrite IH by (rewrite ?pma_step_length; auto).
+  destruct (existsb (fun pa => clause args j (fst pa)) pas) eqn:E.
+  - now rewrite orb_true_r.
+  - rewrite orb_false_r. now apply pma_step_nth.
+Qed.
+
+Lemma existsb_combine_fst {A B} (f : A -> bool) (l : list A) (l' : list B) :
+  length l = length l' -> existsb (fun pa => f (fst pa)) (combine l l') = existsb f l.
+Proof.
+  revert l'. induction l as [|a l IH]; intros [|b l'] L; simpl in *; try discriminate; auto.
+  rewrite IH; auto.
+Qed.
+
+Lemma pma_marks : forall ps args j,
+  length ps = length args -> j < length args ->
+  Forall (fun pa => forall i t c, fst pa = PCon i t c -> nth_error args i = Some (snd pa))
+         (combine ps args) ->
+  nth_error (fst (partially_monomorphize_args ps args None)) j
+  = Some (if needs_mono ps args j then nth_error args j else None).
+Proof.
+  intros ps args j L J HF. unfold partially_monomorphize_args. simpl.
+  rewrite pma_fold_nth; auto; [|now rewrite repeat_length].
+  rewrite (existsb_combine_fst (clause args j) ps args L).
+  change (existsb (clause args j) ps) with (needs_mono ps args j).
+  destruct (needs_mono ps args j); auto.
+  apply nth_error_repeat. auto.
+Qed.
